@@ -329,6 +329,35 @@ def check_json_mode(ctx, tree_recipe):
     return True
 
 
+def check_failed_then_retry(ctx, recipes, rng):
+    """A text whose LAST embedded dependency is unusable is refused; the caller's deps= list is as it was, and the repaired text
+    with the same list gives what a first attempt with the repaired text gives."""
+    wit = {"deps": recipes, "scenario": "refused, repaired, retried"}
+    deps = [gen.build(r) for r in recipes]
+    sers = [serialise(d, None) for d in deps]
+    explicit = ht.HTMLDependency("explicit", "1.0", script={"src": "e.js"})
+    mine = [explicit]
+    bad = rng.choice(['{"name": "b", "version": "1.0", "source": 5}', '{"name": "b", "version": "1.0", "script": [{"nosrc": 1}]}', '{"name": "b"', '{"version": "1.0"}', 'null'])
+    good_text = "<p>" + "</p><p>".join(sers) + "</p>"
+    bad_text = good_text + PREFIX + bad + "</script>"
+    ctx.count("oracle.failed_then_retry")
+    try:
+        ht.HTMLTextDocument(bad_text, deps=mine, deps_replace_pattern=PLACEHOLDER)
+        return True   # (the library may learn to accept some of these; nothing to compare then)
+    except Exception:
+        pass
+    if len(mine) != 1 or mine[0] is not explicit:
+        ctx.violation("caller-list-changed-by-refused-call", "a refused HTMLTextDocument() left %d entries in the caller's deps= list (it held 1)" % len(mine), wit)
+        return False
+    out = ht.HTMLTextDocument(good_text + PLACEHOLDER, deps=mine, deps_replace_pattern=PLACEHOLDER).render()
+    fresh = ht.HTMLTextDocument(good_text + PLACEHOLDER, deps=[ht.HTMLDependency("explicit", "1.0", script={"src": "e.js"})], deps_replace_pattern=PLACEHOLDER).render()
+    if out["html"] != fresh["html"] or [fields(x) for x in out["dependencies"]] != [fields(x) for x in fresh["dependencies"]]:
+        ctx.violation("extracted-count", "after a refused attempt the repaired text gives %d dependencies, a first attempt gives %d"
+                      % (len(out["dependencies"]), len(fresh["dependencies"])), wit)
+        return False
+    return True
+
+
 class _Unexpanded:
     def tagify(self):
         return self
@@ -450,5 +479,12 @@ def run(ctx):
             else:
                 kids.append(gen.TAG(rng.choice(["p", "span"]), {"k": "text", "s": "t%d <&>" % k}, ws=rng.random() < 0.5))
         tree = gen.TAG("div", *kids, gen.TAG("section", {"k": "text", "s": "x"}))
+        if rng.random() < 0.2:
+            # a fragment that carries dependencies but no markup of its own
+            only = [k for k in kids if k["k"] == "dep"]
+            tree = {"k": "list", "t": "taglist", "c": only + ([{"k": "headc", "c": [gen.TAG("title", {"k": "text", "s": "from head_content"})]}] if rng.random() < 0.5 else [])}
+            ctx.count("json_mode_fragments_without_markup")
+        if rng.random() < 0.3:
+            ctx.guard(check_failed_then_retry, ctx, [k for k in kids if k["k"] == "dep"] or [rand_dep_recipe(rng, 0, benign_head=True)], rng, witness={"scenario": "refused, repaired, retried"})
         ctx.guard(check_json_mode, ctx, tree, witness={"tree": tree})
         ctx.case(tree, nontrivial=any(k["k"] == "dep" for k in kids))
